@@ -494,6 +494,17 @@ func MapOrderIntn(n int) int {
 	return s.ord.Intn(n)
 }
 
+// RunEpoch identifies the current simulated run (0 outside a run).
+//
+//go:norace
+func RunEpoch() uint64 {
+	s := cur()
+	if s == nil {
+		return 0
+	}
+	return s.epoch
+}
+
 // PoolDrops reports whether, in this run, the sync.Pool stand-in drops what is put into it
 // (one run in four, decided by the run seed). Outside a run: never.
 //
